@@ -61,3 +61,14 @@ package k8s
 //@ func Kubernetes.GetLocalPods
 //@   trusted
 //@   ensures-assumed forall i int :: 0 <= i && i < len(result0) ==> result0[i] != nil
+
+//@ for C09 C03
+//@ # a pod is reported absent only when the API server said so (not found, or bound to another node) — never because the
+//@ # lookup itself failed
+//@ ghost c09geterr error
+//@ ghost c09nf bool = false
+//@ func k8s.PodExist
+//@   requires k != nil
+//@   at call getPod: ghost c09geterr = result1
+//@   at call errors.IsNotFound: ghost c09nf = result
+//@   ensures c09geterr != nil && !c09nf ==> result1 != nil
